@@ -281,7 +281,7 @@ func (d *decEngine) onCaseExit(c *Ctx, cc *ast.CaseClause, e, x1 *State) {
 		} else {
 			oiv := c.loadField(e, d.x, f.Oneof.GoName).(IfaceV)
 			oldMsg := c.loadField(e, PtrV{Ref: oiv.Ref, Named: f.Wrapper}, f.GoName).(PtrV)
-			sel := fmt.Sprintf("(and (= %s %d) (not (= %s 0)))", oiv.Tag, c.typeTag(f.Wrapper), oldMsg.Ref)
+			sel := fmt.Sprintf("(and (= %s %d) (not (= %s 0)) (not (= %s 0)))", oiv.Tag, c.typeTag(f.Wrapper), oiv.Ref, oldMsg.Ref)
 			add("oneof-message[merges into the already selected member]", implies(sel, "(= "+cur.Ref+" "+oldMsg.Ref+")"), "a repeated occurrence of the selected oneof message member merges into it")
 		}
 	}
